@@ -1,6 +1,14 @@
 #include "../matrix.hpp"
 #include "../common.hpp"
 
+namespace glm{
+namespace detail
+{
+	template<typename V, typename T, bool Aligned>
+	struct compute_dot;
+}//namespace detail
+}//namespace glm
+
 namespace glm
 {
 	// -- Constructors --
@@ -477,9 +485,9 @@ namespace glm
 	GLM_FUNC_QUALIFIER GLM_CONSTEXPR typename mat<3, 3, T, Q>::row_type operator*(typename mat<3, 3, T, Q>::col_type const& v, mat<3, 3, T, Q> const& m)
 	{
 		return typename mat<3, 3, T, Q>::row_type(
-			dot(m[0], v),
-			dot(m[1], v),
-			dot(m[2], v));
+			detail::compute_dot<vec<3, T, Q>, T, detail::is_aligned<Q>::value>::call(m[0], v),
+			detail::compute_dot<vec<3, T, Q>, T, detail::is_aligned<Q>::value>::call(m[1], v),
+			detail::compute_dot<vec<3, T, Q>, T, detail::is_aligned<Q>::value>::call(m[2], v));
 	}
 
 	namespace detail
